@@ -13,6 +13,7 @@ import WalrusVerif.Model.Durable
 import WalrusVerif.Model.Fnv
 import WalrusVerif.Model.LogStore
 import WalrusVerif.Model.Plane
+import WalrusVerif.Model.Adapter
 /-!
 `wdriver`: line-protocol driver.  One request per line on stdin, one reply per line on stdout.
 It runs the very definitions the theorems in `WalrusVerif/Props` are about.
@@ -94,6 +95,8 @@ structure DState where
   wopen : Bool := false
   /-- the data plane (C22, C23) -/
   world : Plane.World := {}
+  /-- the Raft state-machine adapter (C19); `none` = no adapter in this process -/
+  adapter : Option Adapter.SmSt := none
 
 def replyStr : Meta.Reply → String
   | .exists_ => "EXISTS" | .created => "CREATED" | .rolled => "ROLLED" | .node => "NODE"
@@ -584,6 +587,67 @@ def handlePL (st : DState) (toks : List String) : Option (DState × String) :=
     some (st, (if PL.countMismatch st.world then "#quirk sealedCountStale\n" else "") ++ PL.dump st.world)
   | _ => none
 
+/-! ### the Raft state-machine adapter (C19) -/
+
+namespace AD
+open Adapter
+def parsePayload (p : String) : Option Payload :=
+  match p.toList with
+  | ['b'] => some .blank
+  | 'm' :: r => (String.ofList r).toNat?.map Payload.membership
+  | 's' :: r =>
+    match (String.ofList r).splitOn "=" with
+    | [k, v] => do some (.normal (.set (← k.toNat?) (← v.toNat?)))
+    | _ => none
+  | 'g' :: r => (String.ofList r).toNat?.map fun k => .normal (.get k)
+  | 'd' :: r => (String.ofList r).toNat?.map fun k => .normal (.del k)
+  | ['x'] => some (.normal .bad)
+  | _ => none
+def parseEntry (tok : String) : Option REntry :=
+  match tok.splitOn ":" with
+  | [i, t, p] => do some { index := ← i.toNat?, term := ← t.toNat?, payload := ← parsePayload p, responder := false }
+  | [i, t, p, "r"] => do some { index := ← i.toNat?, term := ← t.toNat?, payload := ← parsePayload p, responder := true }
+  | _ => none
+def cmdStr : Cmd → String
+  | .set k v => s!"SET_{k}_{v}"
+  | .get k => s!"GET_{k}"
+  | .del k => s!"DELETE_{k}"
+  | .bad => "FROB"
+def respStr : Resp → String
+  | .empty => ""
+  | .ok => "OK"
+  | .val v => toString v
+  | .notFound => "NOT_FOUND"
+def lidStr : Option (Nat × Nat) → String
+  | none => "-"
+  | some (i, t) => s!"{i}:{t}"
+def stateStr (s : SmSt) : String :=
+  let kvs := ((s.kv.map fun (k, v) => s!"{k}={v}").toArray.qsort (· < ·)).toList
+  s!"applied={lidStr s.lastApplied} membership={lidStr s.lastMembership.1}/{s.lastMembership.2} cmds=[" ++
+    ",".intercalate (s.cmds.map cmdStr) ++ "] kv=[" ++ ",".intercalate kvs ++ "]"
+end AD
+
+def handleAD (st : DState) (toks : List String) : Option (DState × String) :=
+  match toks with
+  | ["ad", "reset"] => some ({ st with adapter := none }, "ok")
+  | ["ad", "restart"] => some ({ st with adapter := none }, "ok")
+  | ["ad", "sm", "new"] => some ({ st with adapter := some {} }, "ok")
+  | ["ad", "sm", "state"] =>
+    match st.adapter with
+    | some s => some (st, AD.stateStr s)
+    | none => some (st, "err:closed")
+  | "ad" :: "sm" :: "apply" :: rest =>
+    match st.adapter with
+    | none => some (st, "err:closed")
+    | some s =>
+      match rest.mapM AD.parseEntry with
+      | none => some (st, "bad-op")
+      | some es =>
+        let (s', os, ok) := Adapter.applyAll s es
+        some ({ st with adapter := some s' },
+          (if ok then "ok" else "err") ++ " resp=[" ++ ",".intercalate (os.map fun (i, r) => s!"{i}=" ++ AD.respStr r) ++ "]")
+  | _ => none
+
 def step (st : DState) (line : String) : DState × String :=
   let toks := (line.trimAscii.toString.splitOn " ").filter (· ≠ "")
   match handlePure toks with
@@ -603,7 +667,10 @@ def step (st : DState) (line : String) : DState × String :=
           | none =>
             match handlePL st toks with
             | some r => r
-            | none => (st, "bad-op")
+            | none =>
+              match handleAD st toks with
+              | some r => r
+              | none => (st, "bad-op")
 
 partial def loop (h : IO.FS.Stream) (out : IO.FS.Stream) (st : DState) : IO Unit := do
   let line ← h.getLine
